@@ -31,7 +31,7 @@ Qed.
 
 Lemma email_go_spec : forall tl s p f, len (L s) = len s ->
   email_go s (L s) tl = DYes p f ->
-  exists l2 l3, s = l2 ++ l3 /\ l2 <> [] /\ p = (l2, Some LE) :: osec l3.
+  exists l2 l3, s = l2 ++ l3 /\ l2 <> [] /\ p = (l2, Some LE) :: osec l3 /\ fst f = L l2.
 Proof.
   induction tl as [|tld tl IH]; intros s p f Hlen H; simpl in H; [discriminate|].
   destruct (find (L s) tld =? -1) eqn:Ef; [eapply IH; eassumption|]. apply Z.eqb_neq in Ef.
@@ -39,16 +39,17 @@ Proof.
   set (e := find (L s) tld + len tld) in *.
   destruct (find (slice (L s) 0 e) [c_at] =? -1); [eapply IH; eassumption|].
   destruct (nonempty (slice (L s) 0 e)) eqn:En; [|discriminate].
-  injection H as <- _.
+  injection H as <- <-.
   assert (He : 0 <= e <= len s) by (pose proof (len_nonneg tld); unfold e; lia).
-  destruct (cut2 s e He) as (a & b & Es & Ha & -> & ->).
-  exists a, b. split; [assumption|]. split.
+  destruct (cut2 s e He) as (a & b & Es & Ha & Esl & Esf). rewrite Esl, Esf.
+  exists a, b. split; [assumption|]. split; [|split].
   - intros ->. rewrite len_nil in Ha. apply nonempty_true in En. apply En.
     apply slice_empty; lia.
   - f_equal. rewrite Hlen. destruct b as [|c b].
     + rewrite app_nil_r in Es. subst a. rewrite Ha, Z.eqb_refl. reflexivity.
     + replace (e =? len s) with false; [reflexivity|]. symmetry. apply Z.eqb_neq.
       rewrite Es, len_app, len_cons. pose proof (len_nonneg b). lia.
+  - simpl. rewrite Es, map_app. rewrite <- Ha, <- (L_len lower_c a). apply slice_prefix.
 Qed.
 
 Lemma detect_email_split_ok s p f : good s -> detect_email lower_c true tlds s = DYes p f ->
@@ -59,7 +60,7 @@ Proof.
   destruct (negb (contains (L s) [c_dot])); [discriminate|].
   destruct (negb (contains (L s) [c_at])); [discriminate|].
   apply email_go_spec in H; [|apply L_len].
-  destruct H as (l2 & l3 & -> & Hne & ->).
+  destruct H as (l2 & l3 & -> & Hne & -> & _).
   change (l2 ++ l3) with ([] ++ l2 ++ l3) in *.
   change ((l2, Some LE) :: osec l3) with (osec [] ++ [(l2, Some LE)] ++ osec l3).
   destruct (good_pieces isalpha isdigit lower_c kbs min_run year_prefixes context_strings _ _ _ Hg) as (G1 & G3).
@@ -169,7 +170,7 @@ Qed.
 
 Lemma web_accept_spec s tld T p f : occ_ok (L s) tld T ->
   web_accept s (L s) tld T = DYes p f ->
-  exists l1 l2 l3, s = l1 ++ l2 ++ l3 /\ l2 <> [] /\ p = osec l1 ++ [(L l2, Some LW)] ++ osec l3.
+  exists l1 l2 l3, s = l1 ++ l2 ++ l3 /\ l2 <> [] /\ p = osec l1 ++ [(L l2, Some LW)] ++ osec l3 /\ fst (fst f) = L l2.
 Proof.
   intros Hocc H. unfold web_accept in H.
   destruct (web_end_of_url (L s) tld T) as [eou|] eqn:Ee; [|discriminate].
@@ -180,7 +181,7 @@ Proof.
   assert (Hsou : 0 <= sou) by (unfold sou; destruct (snd st3 =? -1) eqn:E; [lia|apply Z.eqb_neq in E; lia]).
   cbv zeta in H.
   destruct (nonempty (slice (L s) sou eou)) eqn:En; [|discriminate]. apply nonempty_true in En.
-  injection H as <- _.
+  injection H as <- <-.
   assert (Hlen : len (L s) = len s) by (apply L_len).
   pose proof (len_nonneg tld) as Htn. pose proof Hocc as (Hocc0 & Hoccb).
   assert (Hlt : sou < eou).
@@ -188,11 +189,12 @@ Proof.
   destruct (cut3 s sou eou ltac:(lia) ltac:(lia)) as (l1 & l2 & l3 & Es & Hl1 & Hl2).
   assert (Els : L s = L l1 ++ L l2 ++ L l3) by (rewrite Es at 1; now rewrite !map_app).
   pose proof (L_len lower_c l1) as Hll1. pose proof (L_len lower_c l2) as Hll2.
-  exists l1, l2, l3. split; [assumption|]. split.
+  assert (Emid : slice (L s) sou eou = L l2).
+  { rewrite Els. replace sou with (len (L l1)) by lia. replace eou with (len (L l1) + len (L l2)) by lia.
+    apply slice_app3. }
+  exists l1, l2, l3. split; [assumption|]. split; [|split; [|exact Emid]].
   - intros ->. rewrite len_nil in Hl2. lia.
-  - assert (Emid : slice (L s) sou eou = L l2).
-    { rewrite Els. replace sou with (len (L l1)) by lia. replace eou with (len (L l1) + len (L l2)) by lia.
-      apply slice_app3. }
+  - 
     assert (Epre : (if sou =? 0 then [] else [(slice s 0 sou, @None label)]) = osec l1).
     { rewrite <- Hl1. apply (pre_osec s l1 _ Es). }
     assert (Epost : (if eou =? len s then [] else [(sfrom s eou, @None label)]) = osec l3).
@@ -206,7 +208,7 @@ Qed.
 
 Lemma web_go_spec : forall tl s p f, Forall (fun t => 1 <= len t) tl ->
   web_go isalpha s (L s) tl = DYes p f ->
-  exists l1 l2 l3, s = l1 ++ l2 ++ l3 /\ l2 <> [] /\ p = osec l1 ++ [(L l2, Some LW)] ++ osec l3.
+  exists l1 l2 l3, s = l1 ++ l2 ++ l3 /\ l2 <> [] /\ p = osec l1 ++ [(L l2, Some LW)] ++ osec l3 /\ fst (fst f) = L l2.
 Proof.
   induction tl as [|tld tl IH]; intros s p f Htl H; [discriminate|]. cbn [web_go] in H.
   inversion Htl as [|? ? Ht1 Htl']; subst.
@@ -240,7 +242,7 @@ Proof.
   rewrite (working_aligned lower_c s (good_lowne isalpha isdigit lower_c s Hg)) in H.
   destruct (negb (contains (L s) [c_dot])); [discriminate|].
   apply web_go_spec in H; [|assumption].
-  destruct H as (l1 & l2 & l3 & -> & Hne & ->).
+  destruct H as (l1 & l2 & l3 & -> & Hne & -> & _).
   destruct (good_pieces isalpha isdigit lower_c kbs min_run year_prefixes context_strings _ _ _ Hg) as (G1 & G3).
   assert (Hg2 : good l2). { apply good_app in Hg. destruct Hg as (_ & Hg). apply good_app in Hg. tauto. }
   assert (Hll : len (L l2) = len l2) by (apply L_len).
